@@ -63,11 +63,27 @@ pub struct SchedOut {
     pub switches: u64,
     pub choice_points: u64,
     pub freezes: u64,
-    pub freeze_kinds: [u64; 8],
+    pub freeze_kinds: [u64; 16],
     pub max_frozen_steps: u64,
     pub replay_diverged: Option<u64>,
     pub change_points_hit: u64,
+    /// alignment requests seen / victim parked at the requested point / dropped (nobody got there)
+    pub align_requests: u64,
+    pub align_parked: u64,
+    pub align_dropped: u64,
+    pub align_kinds: [u64; 16],
 }
+
+/// An alignment request being served (see `rt::AlignReq`).
+struct Aligning {
+    caller: usize,
+    mask: u16,
+    remaining: u32,
+    victim: Option<usize>,
+    since: u64,
+}
+
+const ALIGN_BUDGET: u64 = 30_000;
 
 struct Frozen {
     victim: usize,
@@ -92,6 +108,8 @@ pub struct SimScheduler {
     frozen: Option<Frozen>,
     // round robin
     rr_last: usize,
+    // alignment overlay (any strategy but Replay)
+    align: Option<Aligning>,
 }
 
 impl SimScheduler {
@@ -129,6 +147,7 @@ impl SimScheduler {
             armed: 0,
             frozen: None,
             rr_last: 0,
+            align: None,
         };
         (s, out)
     }
@@ -171,8 +190,55 @@ impl Scheduler for SimScheduler {
         }
         let step = self.local.steps;
 
+        // Alignment overlay: a client asked to start its next operation exactly when another task
+        // sits at a given kind of point. Phase 1 holds the caller back and counts the others'
+        // matching points; phase 2 parks the task that reached the n-th one and runs the caller
+        // until it blocks or finishes. The strategy below then chooses among the allowed tasks.
+        if let Some(req) = rt::take_align_request() {
+            if self.strategy != Strategy::Replay {
+                self.align = Some(Aligning { caller: req.caller, mask: req.mask, remaining: req.nth, victim: None, since: step });
+                self.local.align_requests += 1;
+            }
+        }
+        let all_ids = run_ids.clone();
+        let mut run_ids = run_ids;
+        if let Some(a) = &mut self.align {
+            if a.victim.is_none() {
+                if let Some(c) = cur {
+                    if c != a.caller && (a.mask >> yield_kind) & 1 == 1 && run_ids.contains(&c) {
+                        a.remaining -= 1;
+                        if a.remaining == 0 {
+                            a.victim = Some(c);
+                            a.since = step;
+                            self.local.align_parked += 1;
+                            self.local.align_kinds[yield_kind] += 1;
+                        }
+                    }
+                }
+            }
+            let expired = step - a.since > ALIGN_BUDGET;
+            match a.victim {
+                None => {
+                    let others: Vec<usize> = run_ids.iter().copied().filter(|t| *t != a.caller).collect();
+                    if others.is_empty() || expired {
+                        self.local.align_dropped += 1;
+                        self.align = None;
+                    } else {
+                        run_ids = others;
+                    }
+                }
+                Some(_) => {
+                    if run_ids.contains(&a.caller) && !expired {
+                        run_ids = vec![a.caller];
+                    } else {
+                        self.align = None;
+                    }
+                }
+            }
+        }
+
         // A task that is unwinding from a panic finishes unwinding before anything else runs.
-        let choice: usize = if let Some(p) = rt::panicking_task().filter(|p| run_ids.contains(p)) {
+        let choice: usize = if let Some(p) = rt::panicking_task().filter(|p| all_ids.contains(p)) {
             p
         } else {
             match &self.strategy {
@@ -255,7 +321,7 @@ impl Scheduler for SimScheduler {
                             // mostly the classified points; one time in eight any other scheduling
                             // point (a plain lock acquisition, a channel operation, a join): windows
                             // between two critical sections of one call are such points
-                            let interesting = matches!(yield_kind, 1 | 2 | 3 | 4 | 6) || (yield_kind == 0 && self.rng.below(8) == 0);
+                            let interesting = matches!(yield_kind, 1 | 2 | 3 | 4 | 6) || (yield_kind == 8 && self.rng.below(2) == 0) || (yield_kind == 7 && self.rng.below(4) == 0) || (yield_kind == 0 && self.rng.below(8) == 0);
                             if interesting && run_ids.contains(&c) {
                                 self.armed -= 1;
                                 self.frozen = Some(Frozen { victim: c, since: step });
